@@ -20,6 +20,7 @@ CONSTANTS
   Retargets = {FALSE}
   AlignOpts = {0, 4, 16}
   Aliases = {FALSE}
+  SharedRet = {FALSE}
   InsFns = {"none"}
   Emit = TRUE
 INVARIANT Inv
